@@ -16,7 +16,7 @@
 (*   (m = "" finite value x with |x|*10^12 = hi*10^6+lo; "nan"; "inf").                                   *)
 (*                                                                                                      *)
 (* P-layer = the property as stated; where the statement is silent (a field that is missing in the      *)
-(*           file, which depth the depth filter looks at for a pair, a record straddling a segment      *)
+(*           file beyond "no depth at all", a record straddling a segment                              *)
 (*           edge, which side "one side of 0.5" is when nothing is asked) the clauses leave the freedom. *)
 (* A-layer = skgenome/tabio/vcfio.py, cnvlib/vary.py, cnvlib/cmdutil.py, skgenome/intersect.py,          *)
 (*           cnvlib/call.py case for case.  Known defects of the code are *named switches* below.        *)
@@ -170,7 +170,10 @@ Boost(t, n) ==
     IF RLess(t, n) THEN AVal(Norm(<<t[1] * n[2], 2 * t[2] * n[1]>>))
     ELSE IF n[1] = n[2] THEN (IF t[1] = t[2] THEN ANaN ELSE AInf)       \* n = 1 <= t: (1-t)/0
     ELSE AVal(Norm(<<2 * t[2] * (n[2] - n[1]) - (t[2] - t[1]) * n[2], 2 * t[2] * (n[2] - n[1])>>))
-BoostVals(t, n) == IF t.m # "" \/ n.m # "" THEN ANaN ELSE Boost(t.q, n.q)
+BoostVals(t, n) == IF t.m = "nan" \/ n.m = "nan" \/ (t.m = "inf" /\ n.m = "inf") THEN ANaN
+                   ELSE IF t.m = "inf" THEN AInf                       \* 1 - 0.5 (1 - inf) / (1 - n)
+                   ELSE IF n.m = "inf" THEN AVal(RZero)                 \* 0.5 t / inf
+                   ELSE Boost(t.q, n.q)
 BoostRow(r) == BoostVals(TabFreq(r), TabNFreq(r))
 (* what pandas does with `frame["alt_freq"] = tumor_boost()`: the 0..k-1 indexed result b is aligned with the  *)
 (* frame's index *labels*; a row whose label is >= k gets NaN (CodeBoostAlignedByPosition = FALSE)            *)
@@ -294,15 +297,30 @@ SelOK(vcf, a, sel) ==
          ELSE sel.sid = sid                                               \* tumour = normal given: pairing not defined
     ELSE sel.nid = "" /\ sel.sid = (IF sid # "" THEN sid ELSE S[1])
 
-(* does a record survive "the depth and somatic filters asked for" (and skip_reject): keep / drop / free *)
-PFate(vcf, rc, sid, nid, mind, skipsom, skiprej) ==
+(* does a record survive "the depth and somatic filters asked for" (and skip_reject): keep / drop / free      *)
+(* The depth filter looks at one sample: the paired normal when a pair is chosen, else the sample (germline     *)
+(* SNPs are judged on the normal).  A record in which the file gives that sample no depth at all (no DP, no AD   *)
+(* value, no INFO/DP) is below any min_depth > 0 -- whenever depth information exists in the file for that        *)
+(* sample; "exists" is decided on all parsed records (every record not skipped as rejected), before any filter:  *)
+(* a SOMATIC record that skip_somatic will drop still counts.  Only a file without any depth for the sample is   *)
+(* left unfiltered ("depth info not available").  Where DP is missing but AD has values the statement does not   *)
+(* say whether their sum is the depth: free.                                                                     *)
+FilterKey(sid, nid) == IF nid # "" THEN nid ELSE sid
+NoDepthAtAll(rc, cl) == /\ ~(rc.fdp /\ cl.dp >= 0)
+                        /\ ~(rc.fad /\ \E i \in Idx(cl.ad) : cl.ad[i] >= 0)
+                        /\ rc.idp < 0
+DepthInfoInFile(vcf, key, skiprej) ==
+    \E k \in Idx(vcf.recs) : ~(skiprej /\ BadFilter(vcf.recs[k])) /\ PDepth(vcf.recs[k], CallOf(vcf, vcf.recs[k], key)) >= 0
+PFateI(vcf, rc, sid, nid, mind, skipsom, skiprej, info) ==       \* info = DepthInfoInFile(vcf, FilterKey(sid, nid), skiprej)
     IF (skiprej /\ BadFilter(rc)) \/ (skipsom /\ rc.som) THEN "drop"
     ELSE IF mind <= 0 THEN "keep"
-    ELSE LET dt == PDepth(rc, CallOf(vcf, rc, sid))
-             dn == IF nid # "" THEN PDepth(rc, CallOf(vcf, rc, nid)) ELSE dt IN
-         IF dt < 0 \/ dn < 0 THEN "free"
-         ELSE IF dt >= mind /\ dn >= mind THEN "keep"
-         ELSE IF dt < mind /\ dn < mind THEN "drop" ELSE "free"     \* which of the pair's depths counts is not stated
+    ELSE LET cl == CallOf(vcf, rc, FilterKey(sid, nid))
+             d == PDepth(rc, cl) IN
+         IF d >= 0 THEN (IF d >= mind THEN "keep" ELSE "drop")
+         ELSE IF NoDepthAtAll(rc, cl) /\ info THEN "drop"
+         ELSE "free"
+PFate(vcf, rc, sid, nid, mind, skipsom, skiprej) ==
+    PFateI(vcf, rc, sid, nid, mind, skipsom, skiprej, DepthInfoInFile(vcf, FilterKey(sid, nid), skiprej))
 
 KeyOK(vcf, row) == /\ row.k \in Idx(vcf.recs)
                    /\ LET rc == vcf.recs[row.k] IN
@@ -322,17 +340,16 @@ SelUsable(vcf, r) == r.err = "" /\ r.sel.called /\ r.sel.sid # "" /\ Has(vcf.sam
 (* ---- germline-heterozygous (load_het_snps): yes / no / free ---------------------------------------- *)
 (* zygosity in effect: the genotype, or -- when zygosity_freq is given, or (the code's documented Mutect2     *)
 (* work-around) every genotype of the paired normal is 0/0 -- thresholds z and 1-z on the allele frequency    *)
-EffZ(vcf, a, sid, nid) ==
+EffZI(vcf, a, sid, nid, info) ==
     IF a.zd > 0 THEN <<a.zn, a.zd>>
     ELSE IF nid = "" THEN <<0, 0>>                                         \* <<0,0>> = by genotype
     ELSE IF \A k \in Idx(vcf.recs) : PZyg(CallOf(vcf, vcf.recs[k], nid)) = 0 THEN <<1, 4>>
-    ELSE IF \E k \in Idx(vcf.recs) : /\ PFate(vcf, vcf.recs[k], sid, nid, a.mind, TRUE, FALSE) = "keep"
+    ELSE IF \E k \in Idx(vcf.recs) : /\ PFateI(vcf, vcf.recs[k], sid, nid, a.mind, TRUE, FALSE, info) = "keep"
                                      /\ PZyg(CallOf(vcf, vcf.recs[k], nid)) \in {1, 2} THEN <<0, 0>>
     ELSE <<-1, 0>>                                                         \* cannot be told from the file
-PHet(vcf, a, sid, nid, rc) ==
-    LET fate == PFate(vcf, rc, sid, nid, a.mind, TRUE, FALSE)
-        key == CallOf(vcf, rc, IF nid # "" THEN nid ELSE sid)
-        ez == EffZ(vcf, a, sid, nid)
+PHetI(vcf, a, sid, nid, rc, ez, info) ==       \* ez = EffZI(..), info = DepthInfoInFile(..): computed once per record of the trace
+    LET fate == PFateI(vcf, rc, sid, nid, a.mind, TRUE, FALSE, info)
+        key == CallOf(vcf, rc, FilterKey(sid, nid))
         byrule == IF ez = <<-1, 0>> THEN "free"
                   ELSE IF ez = <<0, 0>> THEN (IF PZyg(key) < 0 THEN "free" ELSE IF PZyg(key) = 1 THEN "yes" ELSE "no")
                   ELSE LET d == PDepth(rc, key)  c == PCount(rc, key) IN
@@ -457,14 +474,16 @@ Holds(c, r) ==
       [] c = "rows_filters_keep" ->
             (* a record that passes every filter asked for has its row *)
             (SelUsable(vcf, r) /\ RowsFromRecords(vcf, r.rows)) =>
+                LET info == DepthInfoInFile(vcf, FilterKey(sel.sid, sel.nid), a.skiprej)
+                    have == {r.rows[j].k : j \in Idx(r.rows)} IN
                 \A k \in Idx(vcf.recs) :
-                    PFate(vcf, vcf.recs[k], sel.sid, sel.nid, a.mind, a.skipsom, a.skiprej) = "keep"
-                        => \E j \in Idx(r.rows) : r.rows[j].k = k
+                    PFateI(vcf, vcf.recs[k], sel.sid, sel.nid, a.mind, a.skipsom, a.skiprej, info) = "keep" => k \in have
       [] c = "rows_filters_drop" ->
             (* a record below min_depth, flagged SOMATIC under skip_somatic, or rejected under skip_reject has none *)
             (SelUsable(vcf, r) /\ RowsFromRecords(vcf, r.rows)) =>
+                LET info == DepthInfoInFile(vcf, FilterKey(sel.sid, sel.nid), a.skiprej) IN
                 \A j \in Idx(r.rows) :
-                    PFate(vcf, vcf.recs[r.rows[j].k], sel.sid, sel.nid, a.mind, a.skipsom, a.skiprej) # "drop"
+                    PFateI(vcf, vcf.recs[r.rows[j].k], sel.sid, sel.nid, a.mind, a.skipsom, a.skiprej, info) # "drop"
       [] c = "row_start_end" ->
             (* 0-based start (in the key) and a proper interval; a symbolic allele ends at INFO/END *)
             (r.err = "" /\ RowsFromRecords(vcf, r.rows)) =>
@@ -493,11 +512,16 @@ Holds(c, r) ==
       [] c = "hets_one_per_record" -> r.err = "" => RowsFromRecords(vcf, r.rows)
       [] c = "hets_keeps_every_het" ->
             (SelUsable(vcf, r) /\ RowsFromRecords(vcf, r.rows)) =>
+                LET info == DepthInfoInFile(vcf, FilterKey(sel.sid, sel.nid), FALSE)
+                    ez == EffZI(vcf, a, sel.sid, sel.nid, info)
+                    have == {r.rows[j].k : j \in Idx(r.rows)} IN
                 \A k \in Idx(vcf.recs) :
-                    PHet(vcf, a, sel.sid, sel.nid, vcf.recs[k]) = "yes" => \E j \in Idx(r.rows) : r.rows[j].k = k
+                    PHetI(vcf, a, sel.sid, sel.nid, vcf.recs[k], ez, info) = "yes" => k \in have
       [] c = "hets_keeps_only_hets" ->
             (SelUsable(vcf, r) /\ RowsFromRecords(vcf, r.rows)) =>
-                \A j \in Idx(r.rows) : PHet(vcf, a, sel.sid, sel.nid, vcf.recs[r.rows[j].k]) # "no"
+                LET info == DepthInfoInFile(vcf, FilterKey(sel.sid, sel.nid), FALSE)
+                    ez == EffZI(vcf, a, sel.sid, sel.nid, info) IN
+                \A j \in Idx(r.rows) : PHetI(vcf, a, sel.sid, sel.nid, vcf.recs[r.rows[j].k], ez, info) # "no"
       [] c = "hets_fields" ->
             (SelUsable(vcf, r) /\ RowsFromRecords(vcf, r.rows)) =>
                 \A j \in Idx(r.rows) : LET row == r.rows[j]  rc == vcf.recs[row.k] IN
